@@ -19,6 +19,7 @@
 -/
 import Desync.Model.Pool
 import Desync.Model.PoolJobs
+import Desync.Model.PoolCS
 import Desync.Model.VerifyIndex
 
 namespace Driver.PoolAccept
@@ -138,5 +139,55 @@ def cmd (a : Args) : String :=
         if (get a "good").isEmpty then none else some (((get a "good").splitOn ",").map (· == "1"))
       let en := if (get a "en").isEmpty then [] else (get a "en").splitOn "/"
       replay sh bs good n evs en 0 (St.init jobs n)
+
+/-! ### the pool with `ChunkStorage.StoreChunk` jobs (ChopFile, ChunkStream): `poolcs.accept`
+
+    poolcs.accept ids=0,1,0,2 n=3 events=fs:1,mark:1,pc,hasF:1,stO:1,fb,exit:0,exit:1,exit:2,wait
+
+  `ids` = the chunk ID of every job (equal numbers = equal chunks); events: `pc` · `fs:w` · `fb` · `fe` ·
+  `mark:w` (markProcessed) · `hasT:w` / `hasF:w` / `hasE:w` (HasChunk true / false / error) · `stO:w` /
+  `stE:w` (StoreChunk nil / error) · `exit:w` · `wait`.  The answer carries the machine's result, the
+  jobs whose StoreChunk returned nil, and the IDs it saw stored / already present. -/
+
+def parseEvCS (e : String) : Option Desync.PoolCS.Ev :=
+  match e.splitOn ":" with
+  | ["pc"] => some .parentCancel
+  | ["fs", w] => w.toNat?.map .feedSend
+  | ["fb"] => some .feedBreak
+  | ["fe"] => some .feedEnd
+  | ["mark", w] => w.toNat?.map .mark
+  | ["hasT", w] => w.toNat?.map .hasTrue
+  | ["hasF", w] => w.toNat?.map .hasFalse
+  | ["hasE", w] => w.toNat?.map .hasErr
+  | ["stO", w] => w.toNat?.map .storeOk
+  | ["stE", w] => w.toNat?.map .storeErr
+  | ["exit", w] => w.toNat?.map .workExit
+  | ["wait"] => some .wait
+  | _ => none
+
+def setStr (l : List Nat) : String :=
+  let sorted := (l.toArray.qsort (· < ·)).toList.eraseDups
+  String.intercalate "." (sorted.map toString)
+
+def answerCS (s : Desync.PoolCS.St) : String :=
+  let r := match s.result with
+    | none => "none" | some .ok => "ok" | some .err => "err" | some .interrupted => "interrupted"
+  let done := (List.range s.ids.length).map fun j => if s.doneOK.contains j then "1" else "0"
+  s!"accept result={r} done={String.intercalate "," done} stored={setStr s.stored} had={setStr s.had}"
+
+def replayCS : List String → Nat → Desync.PoolCS.St → String
+  | [], _, s => answerCS s
+  | x :: xs, k, s =>
+    match parseEvCS x with
+    | none => s!"bad-op@{k}"
+    | some ev =>
+      match Desync.PoolCS.step s ev with
+      | none => s!"reject@{k} {x} is not enabled (next={s.next} closed={s.feederClosed} cancelled={s.parentCancelled} groupErr={s.groupErr} processed={setStr s.processed})"
+      | some s' => replayCS xs (k + 1) s'
+
+def cmdCS (a : Args) : String :=
+  let ids := if (get a "ids").isEmpty then [] else ((get a "ids").splitOn ",").filterMap String.toNat?
+  let evs := if (get a "events").isEmpty then [] else (get a "events").splitOn ","
+  replayCS evs 0 (Desync.PoolCS.St.init ids (nat a "n"))
 
 end Driver.PoolAccept
